@@ -584,9 +584,61 @@ def replay_binary_ord(a):
     return a.replay_cases(exe, data, cases)
 
 
+# --------------------------------------------------------------------------------------------------
+# built-in functions: FunctionName::call dispatch and the one-line wrappers
+# --------------------------------------------------------------------------------------------------
+CALLABLE_IMPL = r"(?:rules::)?eval_context::<impl at guard/src/rules/eval_context\.rs:\d+:\d+: \d+:\d+>::call"
+WRAPPED = {"ToUpper": "to_upper", "ToLower": "to_lower", "UrlDecode": "url_decode", "ParseInt": "parse_int", "ParseFloat": "parse_float",
+           "ParseString": "parse_str", "ParseBoolean": "parse_bool", "ParseChar": "parse_char", "ParseEpoch": "parse_epoch",
+           "JsonParse": "json_parse"}
+
+
+def function_dispatch(a):
+    FN = enum_variants(a.src, "rules/eval_context.rs", "FunctionName")
+    ex = a.exec(CALLABLE_IMPL, {"call": m_result_opq}, unroll=1, max_paths=20000, first_arg_re=r"_1: &(?:eval_context::)?FunctionName,")
+    a.fns.append("rules::eval_context::<FunctionName as Callable>::call")
+    d = disc(ex, ex.arg_env["_1"])
+    args = ex.arg_env["_2"]
+    bad = []
+    for p in ex.paths:
+        cs = calls(p, "call")
+        if len(cs) != 1 or p.ret is None:
+            bad.append(pc_term(p.pc))
+            continue
+        m = re.search(r"<(\w+)Function as (?:\w+::)*Callable>", cs[0][5])
+        variant = m.group(1) if m else None
+        ok = variant in FN and len(cs[0][2]) == 2 and cs[0][2][1] == args and p.ret == cs[0][3]
+        bad.append(f"(and {pc_term(p.pc)} (not (= {d} {FN.index(variant)})))" if ok else pc_term(p.pc))
+    a.discharge("functions/FunctionName::call/dispatch", ex, bad,
+                "every built-in name is evaluated by its own implementation (count -> CountFunction, to_upper -> ToUpperFunction, ...) on "
+                "the unchanged argument lists and its result is returned unchanged")
+    for variant, fname in WRAPPED.items():
+        try:
+            ex = a.exec(CALLABLE_IMPL, {fname: m_result_opq}, unroll=1, max_paths=2000,
+                        first_arg_re=r"_1: &(?:eval_context::)?" + variant + "Function,")
+        except Untranslatable:
+            a.ob.items.append({"obligation": f"functions/{variant}Function::call", "describe": "implementation not found", "verdicts": {},
+                               "status": "inconclusive", "model": None})
+            continue
+        args = ex.arg_env["_2"]
+        ex.side.append(f"(= {ex.len_of(args)} 1)")          # arity checked by the parser
+        bad = []
+        for p in ex.paths:
+            cs = calls(p, fname)
+            if p.outcome == "panic":
+                bad.append(pc_term(p.pc))
+                continue
+            ok = (len(cs) == 1 and p.ret == cs[0][3] and len(cs[0][2]) >= 1 and cs[0][2][0] == ex.proj.get((args[1], "[0]")))
+            bad.append("false" if ok else pc_term(p.pc))
+        a.discharge(f"functions/{variant}Function::call", ex, bad,
+                    f"{variant}: the wrapper applies `{fname}` to its single argument list and returns that result unchanged; no "
+                    "out-of-bounds argument access for a call with one argument", witness=False)
+
+
 SITES = {
     "C01": [guard_block, type_block, binary_operation, operator_dispatch],
     "C02": [guard_block, type_block],
     "C03": [flip_closure, negated_compare_wrapper],
     "C13": [flip_closure, operator_dispatch, binary_operation],
+    "C18": [function_dispatch],
 }
